@@ -505,7 +505,7 @@ pub struct KnnBadCase {
 }
 
 fn strat_knn_bad(_t: Tier) -> BoxedStrategy<KnnBadCase> {
-    (2usize..=12, 0u8..4, any::<bool>()).prop_map(|(n, kind, cover_tree)| KnnBadCase { n, kind, cover_tree }).boxed()
+    (1usize..=12, 0u8..6, any::<bool>()).prop_map(|(n, kind, cover_tree)| KnnBadCase { n: if kind < 4 { n.max(2) } else { n }, kind, cover_tree }).boxed()
 }
 
 fn check_knn_bad(case: &KnnBadCase, ctx: &mut Ctx) -> Result<(), Fail> {
@@ -519,12 +519,22 @@ fn check_knn_bad(case: &KnnBadCase, ctx: &mut Ctx) -> Result<(), Fail> {
         0 => catch(|| KNNClassifier::fit(&x, &y, KNNClassifierParameters::default().with_k(0).with_algorithm(alg.clone())).is_err()),
         1 => catch(|| KNNClassifier::fit(&x, &y, KNNClassifierParameters::default().with_k(1).with_algorithm(alg.clone())).is_err()),
         2 => catch(|| KNNRegressor::fit(&x, &y, KNNRegressorParameters::default().with_k(0).with_algorithm(alg.clone())).is_err()),
-        _ => {
+        3 => {
             let y2: Vec<f64> = (0..n + 1).map(|i| i as f64).collect();
             catch(|| KNNRegressor::fit(&x, &y2, KNNRegressorParameters::default().with_k(2).with_algorithm(alg.clone())).is_err() && KNNClassifier::fit(&x, &y2, KNNClassifierParameters::default().with_k(2).with_algorithm(alg.clone())).is_err())
         }
+        // more neighbours configured than training rows (n = 1..12, including the default k = 3 on one or two
+        // points): an error must be reported by fit or, at the latest, by predict - never a prediction
+        4 => catch(|| match KNNRegressor::fit(&x, &y, KNNRegressorParameters::default().with_k(n + 1 + n % 3).with_algorithm(alg.clone())) {
+            Err(_) => true,
+            Ok(m) => m.predict(&x).is_err(),
+        }),
+        _ => catch(|| match KNNClassifier::fit(&x, &y, KNNClassifierParameters::default().with_k(n + 1 + n % 3).with_algorithm(alg.clone())) {
+            Err(_) => true,
+            Ok(m) => m.predict(&x).is_err(),
+        }),
     };
-    let what = ["classifier k=0", "classifier k=1", "regressor k=0", "x/y length mismatch"][case.kind as usize];
+    let what = ["classifier k=0", "classifier k=1", "regressor k=0", "x/y length mismatch", "regressor k>n", "classifier k>n"][case.kind as usize];
     match r {
         Err(p) => fail(format!("knn/invalid/{}/panic", what), format!("{} panicked: {}", what, p)),
         Ok(false) => fail(format!("knn/invalid/{}/accepted", what), format!("{} accepted", what)),
